@@ -195,5 +195,23 @@ def generate(repo: Path, outdir: Path) -> bool:
     out.append(f"/-- the perturbations sit in a `try:` whose `finally:` resets the parameter and, under `if y0 is not None`,\n"
                f"    gives the model its saved variables back -/\n"
                f"def respFinallyRestores : Bool := {'true' if guarded and resets and restores else 'false'}\n")
+    # ---- model.py: update_variables / update_parameters check EVERY name before the first write (the `wr` steps of
+    # the model: a failing update leaves the model as it was)
+    mtree = ast.parse((repo / "src/mxlpy/model.py").read_text())
+    atomic = True
+    for meth, single in (("update_variables", "update_variable"), ("update_parameters", "update_parameter")):
+        fn = find_function(mtree, meth, cls="Model")
+        body = [st for st in fn.body if not (isinstance(st, ast.Expr) and isinstance(st.value, ast.Constant))]
+        first = ast.unparse(body[0]) if body else ""
+        writes_later = all(f"self.{single}(" not in ast.unparse(st) for st in body[:1]) and any(
+            f"self.{single}(" in ast.unparse(st) for st in body[1:])
+        atomic = atomic and first.startswith("self._check_known_names(") and writes_later
+    chk = find_function(mtree, "_check_known_names", cls="Model")
+    atomic = atomic and any(isinstance(n, ast.Raise) for n in ast.walk(chk)) and not any(
+        isinstance(n, (ast.Assign, ast.AugAssign)) and "self." in ast.unparse(n.targets[0] if isinstance(n, ast.Assign) else n.target)
+        for n in ast.walk(chk))
+    out.append("/-- `Model.update_variables` / `update_parameters` call `self._check_known_names(...)` (which raises and writes nothing)\n"
+               "    before the first `update_variable` / `update_parameter` -/\n"
+               f"def updatesCheckNamesFirst : Bool := {'true' if atomic else 'false'}\n")
     out.append("end Mxl.Generated.C18\n")
     return write_if_changed(outdir / "C18Expr.lean", "\n".join(out))
